@@ -633,8 +633,8 @@ fn main() {
     if let Mode::Replay(path) = run.mode.clone() {
         let c = vharness::run::read_replay(&path);
         let input = serde_json::to_vec(&json!({"m": c["m"], "q": c["q"]})).unwrap();
-        let o1 = worker::run_single(&Case { id: 0, entry: "q", input: input.clone() }, &[]);
-        let o2 = worker::run_single(&Case { id: 0, entry: "q", input }, &[]);
+        let o1 = worker::run_single(&Case { id: 0, entry: "q", input: input.clone(), logical_len: 0 }, &[]);
+        let o2 = worker::run_single(&Case { id: 0, entry: "q", input, logical_len: 0 }, &[]);
         println!("observed: {:?} {} | second run: {:?}", o1.class, o1.detail, o2.class);
         let bad = o1.class != Class::Returned || o1.detail.starts_with("PANICS");
         run.finish_replay(bad);
@@ -686,7 +686,7 @@ fn main() {
     let mut id = 0u64;
     let mut mk = |m: Vec<(usize, usize)>, cases: &mut Vec<(Vec<(usize, usize)>, Case)>| {
         let input = serde_json::to_vec(&json!({"m": m.iter().map(|(s, c)| json!([s, c])).collect::<Vec<_>>()})).unwrap();
-        cases.push((m, Case { id, entry: "q", input }));
+        cases.push((m, Case { id, entry: "q", input, logical_len: 0 }));
         id += 1;
     };
     for (si, _s) in sites.iter().enumerate() {
@@ -755,7 +755,7 @@ fn main() {
             // hang / abort / oversize: find the query by running each alone in a fresh worker
             for q in 0..QUERIES.len() {
                 let input = serde_json::to_vec(&json!({"m": m.iter().map(|(s, c)| json!([s, c])).collect::<Vec<_>>(), "q": q})).unwrap();
-                recheck.push(Case { id: rid, entry: "q", input });
+                recheck.push(Case { id: rid, entry: "q", input, logical_len: 0 });
                 recheck_meta.insert(rid, (m.clone(), q));
                 rid += 1;
             }
